@@ -1,4 +1,5 @@
 import CobraModel.Lemmas.Core
+import CobraModel.Lemmas.AuxProb
 import Mathlib.Data.List.Dedup
 import Mathlib.Data.List.ProdSigma
 import Mathlib.Data.String.Basic
@@ -85,5 +86,34 @@ theorem essential_iff (rows : List (String × Growth)) (threshold : Rat) (e : St
     · simpa using hv
 
 example : canon "b" "a" = ["a", "b"] ∧ canon "a" "a" = ["a"] := by decide
+
+/-! ### the problem a deletion solves
+
+`AuxM.Net.reactionDeletion n ks` / `AuxM.Net.geneDeletion n rules ko` (lean/CobraModel/Model/AuxProb.lean): the flux-balance problem of the content
+with the deleted reactions — for genes: the reactions whose rule evaluates to false without the genes (`GPRM.eval`, C07 / C08) — closed.  Compared
+entry by entry with the raw GLPK problem of every single deletion (`harness/auxcorr.py`); linear MOMA deletions with `AuxM.Net.moma` of the same
+closed content (C09's `moma_problem_optimum` applies). -/
+open AuxM in
+/-- **a deletion row is the optimum of the knocked-out model**: any optimum of the problem a deletion solves is, on net fluxes, feasible with
+zero flux through the deleted reactions, and optimal for the objective among all steady-state flux vectors that are zero there and inside the
+bounds elsewhere -/
+theorem deletion_row_is_optimum (n : Net) (hp : n.Proper) (ks : List Nat) (x : V → Rat) (h : (n.reactionDeletion ks).IsOpt x) :
+    (n.close ks).Feasible (netOf x) ∧ (∀ i ∈ n.idx, ks.contains i = true → netOf x i = 0) ∧
+    ∀ v, (n.close ks).Feasible v → if n.dirMax then n.objVal v ≤ n.objVal (netOf x) else n.objVal (netOf x) ≤ n.objVal v :=
+  deletion_optimum n hp ks x h
+
+open AuxM in
+/-- what "knocked-out model" means on flux vectors -/
+theorem knocked_out_flux_vectors (n : Net) (ks : List Nat) (v : Nat → Rat) :
+    (n.close ks).Feasible v ↔
+      (∀ i ∈ n.idx, if ks.contains i then v i = 0 else Core.inBox ((n.rx i).lb, (n.rx i).ub) (v i)) ∧
+      (∀ m ∈ n.mets, (n.idx.map (fun i => coefOf (n.rx i).st m * v i)).sum = 0) := close_feasible_iff n ks v
+
+open AuxM in
+/-- a gene deletion closes exactly the reactions whose rule is false without the genes -/
+theorem gene_deletion_is_reaction_deletion (n : Net) (rules : List (Option GPRM.G)) (ko : List String) :
+    n.geneDeletion rules ko = n.reactionDeletion (closedBy rules ko) := rfl
+
+example : AuxM.closedBy [some (.name "a"), none, some (.and (.cons (.name "a") (.cons (.name "b") .nil)))] ["b"] = [2] := by decide
 
 end C06
